@@ -9,12 +9,19 @@
 // entry, every callback run and every value that crosses is logged.
 #define RLBOX_USE_EXCEPTIONS
 #define RLBOX_SINGLE_THREADED_INVOCATIONS
-#define RLBOX_MEASURE_TRANSITION_TIMES
+// Variants: -DCALLS_HOOKS_ONLY (no timing), -DCALLS_TIMING_ONLY (no hooks), -DCALLS_IN_ONLY / -DCALLS_OUT_ONLY (one hook + timing).
+#ifndef CALLS_HOOKS_ONLY
+#  define RLBOX_MEASURE_TRANSITION_TIMES
+#endif
 #include <string>
 template<typename K>
 void calls_hook(bool in, K kind, const char* name, const void* ptr, void*& state);
-#define RLBOX_TRANSITION_ACTION_IN(kind, name, ptr, state) calls_hook(true, kind, name, ptr, state)
-#define RLBOX_TRANSITION_ACTION_OUT(kind, name, ptr, state) calls_hook(false, kind, name, ptr, state)
+#if !defined(CALLS_TIMING_ONLY) && !defined(CALLS_OUT_ONLY)
+#  define RLBOX_TRANSITION_ACTION_IN(kind, name, ptr, state) calls_hook(true, kind, name, ptr, state)
+#endif
+#if !defined(CALLS_TIMING_ONLY) && !defined(CALLS_IN_ONLY)
+#  define RLBOX_TRANSITION_ACTION_OUT(kind, name, ptr, state) calls_hook(false, kind, name, ptr, state)
+#endif
 
 #ifdef CALLS_DYLIB
 #  define private public
@@ -24,6 +31,9 @@ void calls_hook(bool in, K kind, const char* name, const void* ptr, void*& state
 #  undef protected
 #  include "rlbox.hpp"
 using Sbx = rlbox::rlbox_dylib_sandbox;
+#  ifdef RLBOX_EMBEDDER_PROVIDES_TLS_STATIC_VARIABLES
+RLBOX_DYLIB_SANDBOX_STATIC_VARIABLES();
+#  endif
 using A = long;
 using GA = long;
 #elif defined(CALLS_NOOP)
@@ -91,7 +101,11 @@ static int sb_index_of(const void* impl_or_sandbox)
 static int current_guest_sandbox()
 {
 #ifdef CALLS_DYLIB
+#  ifdef RLBOX_EMBEDDER_PROVIDES_TLS_STATIC_VARIABLES
+  return sb_index_of(rlbox::get_rlbox_dylib_sandbox_thread_data()->sandbox);
+#  else
   return sb_index_of(Sbx::thread_data.sandbox);
+#  endif
 #elif defined(CALLS_NOOP)
 #  ifdef RLBOX_EMBEDDER_PROVIDES_TLS_STATIC_VARIABLES
   return sb_index_of(rlbox::get_rlbox_noop_sandbox_thread_data()->sandbox);
@@ -392,6 +406,7 @@ static std::string run_case(const toks_t& t)
       aborted = true;
     }
     out = g_log + " | ab=" + (aborted ? "1" : "0") + " cur=" + (current_guest_sandbox() == -1 ? "ok" : "BAD") + " |";
+#ifdef RLBOX_MEASURE_TRANSITION_TIMES
     for (int i = 0; i < NSB; i++) {
       out += " T" + std::to_string(i) + "=";
       bool first = true;
@@ -405,6 +420,9 @@ static std::string run_case(const toks_t& t)
         }
       }
     }
+#else
+    out += " notiming";
+#endif
   }
   for (int s = 0; s < NSB; s++) for (int f = 0; f < NFN; f++) {
     try { g_own_r[s][f].unregister(); g_own_v[s][f].unregister(); } catch (...) { out += " CLEANUP-ABORT"; }
